@@ -11,3 +11,79 @@ package tls
 //@ ensures [rsa] typeof(k) == *rsa.PublicKey ==> result == RSA
 //@ ensures [dsa] typeof(k) == *dsa.PublicKey ==> result == DSA
 //@ ensures [anything-else-anonymous] typeof(k) != *ecdsa.PublicKey && typeof(k) != *rsa.PublicKey && typeof(k) != *dsa.PublicKey ==> result == Anonymous
+
+//@ func byteCount
+//@ props C09 C04
+//@ pure
+//@ ensures [between-1-and-8] 1 <= result && result <= 8
+//@ ensures [value-fits] result == 8 || x < uint64(1) << (8 * uint64(result))
+//@ ensures [minimal] result == 1 || x >= uint64(1) << (8 * (uint64(result) - 1))
+
+//@ func (*fieldInfo).fieldName
+//@ props C09
+//@ pure
+//@ ensures [nil-safe] (i == nil ==> result == "") && (i != nil ==> result == i.name)
+
+//@ func (fieldInfo).check
+//@ props C09 C04
+//@ pure
+//@ ensures [accepts-exactly-values-that-fit-and-respect-bounds] i.count <= 8 ==> (result == nil <==> ((i.count >= 8 || val < uint64(1) << (8 * uint64(i.count))) && (i.maxlen == 0 || (i.minlen <= val && val <= i.maxlen))))
+
+//@ func fieldTagToFieldInfo
+//@ props C09 C04
+//@ pure
+//@ fresh result0
+//@ ensures [named-fields-always-get-info] result1 == nil && name != "" ==> result0 != nil
+//@ ensures [sizes-are-small] result1 == nil && result0 != nil ==> result0.count <= 4294967295
+//@ ensures [unselected-fields-have-valid-size-and-bounds] result1 == nil && result0 != nil && result0.selector == "" && result0.countSet ==> 1 <= result0.count && result0.count <= 8 && result0.minlen <= result0.maxlen
+
+//@ func readVarUint
+//@ props C09 C04
+//@ pure
+//@ site check#1 as ck
+//@ requires info != nil ==> info.count <= 4294967295
+//@ loop 1 invariant i <= info.count
+//@ ensures [needs-size-information] info == nil || !info.countSet ==> result1 != nil
+//@ ensures [needs-enough-bytes] result1 == nil ==> info != nil && info.countSet && len(data) >= int(info.count)
+//@ ensures [value-passed-the-bounds-check] result1 == nil ==> ck.called && ck.res == nil && ck.val == result0
+//@ ensures [error-yields-zero] result1 != nil ==> result0 == 0
+
+//@ func parseField
+//@ props C09 C04
+//@ site SetUint#1 as s8
+//@ site SetUint#2 as s16
+//@ site SetUint#3 as s24
+//@ site SetUint#4 as s32
+//@ site SetUint#5 as s64
+//@ site SetUint#6 as senum
+//@ site readVarUint#1 as rve
+//@ site readVarUint#2 as rvs
+//@ site Uint16#1 as be16
+//@ site Uint32#1 as be32
+//@ site Uint64#1 as be64
+//@ site reflect.MakeSlice#1 as mk
+//@ requires 0 <= initOffset && initOffset <= len(data)
+//@ requires info != nil ==> info.count <= 4294967295
+//@ modifies nothing
+//@ frame-trusted writes only through the reflect.Value it is given (reflection: outside the memory model)
+//@ loop 1 invariant initOffset <= offset && offset <= len(data)
+//@ loop 3 invariant 0 <= innerOffset && innerOffset <= len(inner)
+//@ ensures [offset-stays-inside-input] result1 == nil ==> initOffset <= result0 && result0 <= len(data)
+//@ ensures [uint8-consumes-1] s8.called ==> result0 == initOffset + 1
+//@ ensures [uint16-consumes-2] s16.called ==> result0 == initOffset + 2
+//@ ensures [uint24-consumes-3] s24.called ==> result0 == initOffset + 3
+//@ ensures [uint32-consumes-4] s32.called ==> result0 == initOffset + 4
+//@ ensures [uint64-consumes-8] s64.called ==> result0 == initOffset + 8
+//@ ensures [enum-consumes-its-size] senum.called && result1 == nil ==> result0 == initOffset + int(info.count)
+//@ at s8 assert [uint8-value-at-offset] s8.x == uint64(data[initOffset])
+//@ at be16 assert [uint16-read-at-offset] be16.b == data[initOffset:]
+//@ at s16 assert [uint16-value] s16.x == uint64(be16.res)
+//@ at s24 assert [uint24-big-endian-value-at-offset] s24.x == uint64(data[initOffset])<<16 | uint64(data[initOffset+1])<<8 | uint64(data[initOffset+2])
+//@ at be32 assert [uint32-read-at-offset] be32.b == data[initOffset:]
+//@ at s32 assert [uint32-value] s32.x == uint64(be32.res)
+//@ at be64 assert [uint64-read-at-offset] be64.b == data[initOffset:]
+//@ at s64 assert [uint64-value] s64.x == be64.res
+//@ at rve assert [enum-read-at-offset] rve.data == data[initOffset:] && rve.info == info
+//@ at senum assert [enum-value] senum.x == rve.res0
+//@ at rvs assert [length-prefix-read-at-offset] rvs.data == data[initOffset:] && rvs.info == info
+//@ at mk assert [allocation-no-larger-than-remaining-input] 0 <= mk.len && mk.len <= len(data) - initOffset && mk.len <= mk.cap && mk.cap <= len(data) - initOffset
